@@ -2,9 +2,10 @@
 # usage: confirm_seed.sh <ID> <n>  — confirms seeded change /tmp/seed/<ID>/<n> in a scratch worktree of /repo HEAD:
 #   (1) patch applies, builds; (2) full existing suite passes with it; (3) demo fails with it; (4) demo passes without it.
 # Writes /verif/seeded/<ID>_<n>/{patch.diff,demo_test.go,meta.json} when all four hold.
-ID=$1; N=$2; SRC=/tmp/seed/$ID/$N
-WT=/tmp/wt/confirm_${ID}_$N
-OUT=/verif/seeded/${ID}_$N
+ID=$1; N=$2; SRC=${SEEDBASE:-/tmp/seed}/$ID/$N
+ON=${OUTN:-$N}
+WT=/tmp/wt/confirm_${ID}_$ON
+OUT=/verif/seeded/${ID}_$ON
 [ -f $SRC/patch.diff ] || { echo "$ID/$N: no patch"; exit 2; }
 git -C /repo worktree remove --force $WT 2>/dev/null
 git -C /repo worktree add -q --detach $WT HEAD || exit 2
@@ -36,11 +37,10 @@ if [ "$SUITE" != fail ] && [ $DEMO_WITH = fail ] && [ $DEMO_WITHOUT = pass ]; th
   git apply --3way $SRC/patch.diff 2>/dev/null; git reset -q; git diff > $OUT/patch.diff; git checkout -q -- .
   cp $SRC/demo_test.go $OUT/demo_test.go
   [ -f $SRC/notes.md ] && cp $SRC/notes.md $OUT/notes.md
-  python3 - "$ID" "$N" "$SUITE" "$PLACE" <<'PY'
+  python3 - "$ID" "$ON" "$SUITE" "$PLACE" <<'PY'
 import json,sys,subprocess
 ID,N,SUITE,PLACE=sys.argv[1:5]
 head=subprocess.check_output(['git','-C','/repo','rev-parse','--short','HEAD']).decode().strip()
-notes=open('/tmp/seed/%s/%s/notes.md'%(ID,N)).read() if True else ''
 meta={"breaks_property":ID,"seed":"%s/%s"%(ID,N),"demo_placed_at":PLACE,"based_on_repo_commit":head,
  "needs_to_manifest":"see notes.md (written by the sub-agent that produced the change)",
  "confirmed_by_me":{"patch_applies_and_builds":True,"full_suite_with_patch":SUITE,"demo_with_patch":"fail","demo_without_patch":"pass",
